@@ -17,7 +17,7 @@ From YV Require Import model.AtomicCSem.
 Definition std_arith (S : sem) (T : cty) (op : bop) (v a : Z) : Z :=
   match T with
   | CInt w sg => norm w sg (raw op v a)
-  | CPtr sz => norm 64 false (raw op v (sz * a))
+  | CPtr sz _ => norm 64 false (raw op v (sz * a))
   | CFlt => match op with BAdd => fadd S v a | BSub => fsub S v a | _ => v end
   | CBool | CFltW => v
   end.
@@ -103,7 +103,7 @@ Definition ty_of (k : kind) (T : cty) : bool :=
 (* type of the (first) argument of operation o on an atomic<T> *)
 Definition arg_ty (T : cty) (o : opn) : cty :=
   match T, o with
-  | CPtr _, (FAdd | FSub | AddA | SubA) => ptrdiff_t
+  | CPtr _ _, (FAdd | FSub | AddA | SubA) => ptrdiff_t
   | _, _ => T
   end.
 
